@@ -4,6 +4,7 @@ CLAIM = ("Presentation order and independence of members: the real reader + basi
          "compared with a reference model of the documented order (re-presented directory at the first later entry outside it / at end of input per policy, "
          "never under the plain policy; deferred symlinks last, longest path first, once each; NULL forever after the end), whatever the caller did with "
          "other members and whatever the decoder and arch layer returned; basic-reader position accounting (skip of exactly the unread remainder).")
-ASSUMPTIONS = ["thread interleavings are NOT explored: the claim for concurrent readers rests on the absence of shared mutable library state (static.* harness) - an argument, not a query",
+ASSUMPTIONS = ["thread interleavings: decided by the solver only on the decode path at the smallest bound (threads.decode2: two threads, one member of one byte each, all interleavings); beyond that the claim for concurrent readers rests on the absence of shared mutable library state (argument)",
                "members are abstract headers served by a stubbed parser; decoders are stubs with arbitrary results"]
-HARNESSES = [THREADS, pos(3), rsm(2, 4, timeout=600), rsm(2, 5, timeout=900), rsm(3, 5, timeout=2400, tier="thorough")]
+from C13 import HARNESSES as _C13H
+HARNESSES = [THREADS, pos(3)] + [h for h in _C13H if h["name"] == "skip.fallback"] + [rsm(2, 4, timeout=600), rsm(2, 5, timeout=900), rsm(3, 5, timeout=2400, tier="thorough")]
